@@ -9,6 +9,7 @@ import (
 	"math/big"
 	"os"
 	"path/filepath"
+	"sync"
 	"syscall"
 
 	"github.com/btcsuite/btcd/btcec/v2"
@@ -277,10 +278,49 @@ func padTo(b []byte, n int) []byte {
 }
 
 // ecdsaSigOracle is the C01 oracle over the SignatureData of all signers that finished.
+// retained results: an application keeps the SignatureData it was handed (a queue, a batch, a cache) while the process goes
+// on signing. Every result that reaches one of the signature oracles is kept by reference together with a copy taken at
+// that moment; each later oracle call in the same worker process first checks that none of the kept results has changed.
+type retainedSig struct {
+	live *common.SignatureData
+	copy *common.SignatureData
+	from string
+}
+
+var (
+	retainedMu   sync.Mutex
+	retainedSigs []retainedSig
+)
+
+func retainAndRecheck(r *core.Result, kind string, outs []*common.SignatureData) {
+	retainedMu.Lock()
+	defer retainedMu.Unlock()
+	for i := range retainedSigs {
+		k := &retainedSigs[i]
+		l, c := k.live, k.copy
+		if !bytes.Equal(l.R, c.R) || !bytes.Equal(l.S, c.S) || !bytes.Equal(l.Signature, c.Signature) || !bytes.Equal(l.SignatureRecovery, c.SignatureRecovery) || !bytes.Equal(l.M, c.M) {
+			r.Fail(kind+":delivered-result-changed", "a SignatureData delivered earlier in this process (%s) has changed since: R %x -> %x, S %x -> %x, Signature %x -> %x", k.from, c.R, l.R, c.S, l.S, c.Signature, l.Signature)
+		}
+	}
+	r.Count("retained_results_rechecked", int64(len(retainedSigs)))
+	for _, o := range outs {
+		if o == nil {
+			continue
+		}
+		cp := &common.SignatureData{R: append([]byte{}, o.R...), S: append([]byte{}, o.S...), Signature: append([]byte{}, o.Signature...),
+			SignatureRecovery: append([]byte{}, o.SignatureRecovery...), M: append([]byte{}, o.M...)}
+		retainedSigs = append(retainedSigs, retainedSig{live: o, copy: cp, from: r.ID})
+	}
+	if len(retainedSigs) > 96 {
+		retainedSigs = retainedSigs[len(retainedSigs)-96:]
+	}
+}
+
 func ecdsaSigOracle(r *core.Result, pub ref.Pt, digest *big.Int, fullLen int, outs []*common.SignatureData) {
 	if len(outs) == 0 {
 		return
 	}
+	defer retainAndRecheck(r, "sig", outs)
 	s0 := outs[0]
 	for i, s := range outs {
 		if !bytes.Equal(s.R, s0.R) || !bytes.Equal(s.S, s0.S) || !bytes.Equal(s.Signature, s0.Signature) ||
@@ -345,6 +385,7 @@ func eddsaSigOracle(r *core.Result, pub ref.Pt, msg *big.Int, fullLen int, outs 
 	if len(outs) == 0 {
 		return
 	}
+	defer retainAndRecheck(r, "edsig", outs)
 	s0 := outs[0]
 	for i, s := range outs {
 		if !bytes.Equal(s.Signature, s0.Signature) || !bytes.Equal(s.M, s0.M) || !bytes.Equal(s.R, s0.R) || !bytes.Equal(s.S, s0.S) {
